@@ -179,8 +179,17 @@ static const uint64_t QR_ALL = (1u << 18) - 1, SIG_ALL = (1u << 17) - 1;
 inline model::Hints gen_hints(Chooser& c) {
   model::Hints h;
   h.qr = QR_ALL; h.sig = SIG_ALL; h.rr = 3; h.other = 3;
-  uint64_t m = c.range(0, 6);
+  uint64_t m = c.range(0, 7);
   switch (m) {
+    case 7: {                                                 // a small subset (1..3 bits) of one group of related query/response bits, nothing else
+      h.qr = h.sig = h.rr = h.other = 0;
+      static const unsigned GROUP[][2] = {{0, 3}, {4, 7}, {8, 11}, {12, 14}, {15, 17}, {5, 7}};   // [first bit, last bit]
+      const unsigned* g = GROUP[c.range(0, 5)];
+      unsigned k = (unsigned)c.range(1, 3);
+      for (unsigned i = 0; i < k; i++) h.qr |= 1ull << c.range(g[0], g[1]);
+      h.rr = c.range(0, 3);
+      break;
+    }
     case 0: break;                                            // everything on (library default)
     case 1: h.qr = h.sig = h.rr = h.other = 0; break;         // everything off
     case 2: {                                                 // exactly one bit cleared
